@@ -174,5 +174,6 @@ int main(int argc, char** argv) {
   if (sh && (atoi(sh) & 1)) { va::g.locked = true; va::g.single_cap = (size_t)1 << 24; cbor_set_allocs(va::vmalloc, va::vrealloc, va::vfree); }
   else cbor_set_allocs(cap_malloc, cap_realloc, cap_free);
   vh::Driver drv{"drv_threads", run_campaigns, run_case};
+  drv.replay_repeat = 1;   // a case is already a many-thread, many-operation history
   return vh::driver_main(argc, argv, drv);
 }
